@@ -73,6 +73,7 @@ type gen struct {
 	inFunc                  *function // function being generated (nil in main)
 	budget                  int       // remaining statements
 	curRecovers             bool      // see function.recovers
+	bumps                   []string  // package-level variables that have a bump_<name> function
 	structs                 bool
 }
 
@@ -1003,10 +1004,29 @@ func (g *gen) stmt() {
 	case 23:
 		g.stmtPanicky()
 	case 24, 25:
+		if len(g.bumps) > 0 && g.inFunc == nil && g.chance("funcvalue", 2) {
+			g.stmtFuncValue()
+			return
+		}
 		g.stmtPointer()
 	default:
 		g.stmtIface()
 	}
+}
+
+// stmtFuncValue uses a top-level function as a value: the function updates a package-level
+// variable, which must be the one of the current run.
+func (g *gen) stmtFuncValue() {
+	g.feat("func_value")
+	v := g.oneOf("bumpvar", g.bumps)
+	g.nvar++
+	f := fmt.Sprintf("fv%d", g.nvar)
+	g.line("%s := bump_%s", f, v)
+	n := 1 + g.pick("nbump", 3)
+	for i := 0; i < n; i++ {
+		g.line("%s()", f)
+	}
+	g.line("println(%s)", v)
 }
 
 // stmtPointer takes the address of a variable and updates it through the pointer.
@@ -1188,6 +1208,22 @@ func Gen(t *rapid.T, off Off) Prog {
 		g.feat("package_var")
 	}
 	g.line("")
+	// one function per package-level variable that updates it; they are only used through
+	// function values at statement level (never inside an expression, see assignable)
+	if !off["funcvalue"] {
+		for _, v := range g.scopes[0] {
+			switch v.typ {
+			case "string":
+				g.line("func bump_%s() { %s += \"+\" }", v.name, v.name)
+			case "float64":
+				g.line("func bump_%s() { %s += 0.5 }", v.name, v.name)
+			default:
+				g.line("func bump_%s() { %s += 1 }", v.name, v.name)
+			}
+			g.bumps = append(g.bumps, v.name)
+		}
+		g.line("")
+	}
 	nf := g.pick("nfuncs", 4)
 	g.budget = 12
 	for i := 0; i < nf; i++ {
